@@ -69,15 +69,15 @@ P("C05", ["COH", "CNT", "FIELDS", "SF1", "SF3", "SF5", "SF6", "ESC", "SF4", "RES
   "field agreement; the wrapper's own counting / caching rules are those of C15.",
   "bit-equality of the user's arithmetic between two calls (trusted: same call); determinism of user code",
   design="3/C05")
-P("C06", ["ORIENT", "FIELDS", "MEM", "OWN", "FDB", "BIND", "SFREAD", "UNITS", "MAXLEN", "RESTARTX", "BFGSFORM", "REBUILD", "STEPINIT"],
-  "(STEPINIT) the first trial step never exceeds the largest feasible step, so that a last-bit difference in the direction of a restarted run cannot abort its first line search; (REBUILD) a restart turns the restored history into matrices before its first iteration; (RESTARTX) the continuation starts at exactly the checkpoint's point; (BFGSFORM) the limited-memory matrices are rebuilt from the restored history X, G alone, so nothing but the checkpoint determines the continuation; (MAXLEN) a history deque built with maxlen= is bounded by exactly maxcor + 1; (UNITS) values read back from a checkpoint are used in the unit they were stored in (writer/reader agreement on the scaling factor); (OWN) decoding a checkpoint does not write into it, (FDB) differencing options depend on the caller's arguments only, (BIND) the line search sees the global iteration number, (SFREAD) the solver reads no evaluation history of the wrapper, which a restart cannot reproduce; (ORIENT) orientation typing of the checkpoint decoder: increments accumulated from the newest pair backwards, "
+P("C06", ["ORIENT", "FIELDS", "MEM", "OWN", "FDB", "BIND", "SFREAD", "UNITS", "MAXLEN", "RESTARTX", "BFGSFORM", "REBUILD", "STEPINIT", "ANCHOR"],
+  "(ANCHOR) the restoration anchors the retained points at checkpoint.x, so every path of the per-iteration memory update must store the new point -- otherwise the state emitted after a rejected pair restarts with another memory than the live run holds; (STEPINIT) the first trial step never exceeds the largest feasible step, so that a last-bit difference in the direction of a restarted run cannot abort its first line search; (REBUILD) a restart turns the restored history into matrices before its first iteration; (RESTARTX) the continuation starts at exactly the checkpoint's point; (BFGSFORM) the limited-memory matrices are rebuilt from the restored history X, G alone, so nothing but the checkpoint determines the continuation; (MAXLEN) a history deque built with maxlen= is bounded by exactly maxcor + 1; (UNITS) values read back from a checkpoint are used in the unit they were stored in (writer/reader agreement on the scaling factor); (OWN) decoding a checkpoint does not write into it, (FDB) differencing options depend on the caller's arguments only, (BIND) the line search sees the global iteration number, (SFREAD) the solver reads no evaluation history of the wrapper, which a restart cannot reproduce; (ORIENT) orientation typing of the checkpoint decoder: increments accumulated from the newest pair backwards, "
   "subtracted from the newest point, appended oldest-first, identical shape for X and G -- the inverse of the "
   "encoder fixed by SIB; (FIELDS) every field a restart reads is written by every result and lands in the live "
   "variable it came from; (MEM) the refill is bounded by maxcor+1 points and drops from the left, so reducing "
   "maxcor keeps the most recent pairs.",
   "agreement 'up to rounding' of the continued iterates with the uninterrupted run (arithmetic)", design="3/C06")
-P("C07", ["ESC", "NITOFF", "SIB", "CBUSE", "CNT", "FIELDS", "ORIENT", "DOWNHILL", "BIND", "SFREAD", "LSCAP", "SHARED", "STEPINIT", "RETRY", "FDB"],
-  "(FDB) the finite-difference options are the caller's values, not quantities derived from the point at which the wrapper happens to be built (a restarted run builds it elsewhere); (RETRY) the decision to abort after a failed search depends only on the memory length, which the callback state carries; (STEPINIT) the first trial step never exceeds the largest feasible step, so that a last-bit difference in the direction of a restarted run cannot abort its first line search; (SHARED) no solver state lives outside what the callback state carries (no module-level state written by the package); (LSCAP) the line-search cap is computed from the counters at the time of use, so a restart sees the same cap as the uninterrupted run; (SFREAD, DOWNHILL, BIND) the line search depends only on quantities a checkpoint carries: start value, global iteration number, evaluators; (ESC) may-alias origins of everything handed to the callback are disjoint from the targets of every in-place "
+P("C07", ["ESC", "NITOFF", "SIB", "CBUSE", "CNT", "FIELDS", "ORIENT", "DOWNHILL", "BIND", "SFREAD", "LSCAP", "SHARED", "STEPINIT", "RETRY", "FDB", "ANCHOR"],
+  "(ANCHOR) the restoration anchors the retained points at checkpoint.x, so every path of the per-iteration memory update must store the new point -- otherwise the state emitted after a rejected pair restarts with another memory than the live run holds; (FDB) the finite-difference options are the caller's values, not quantities derived from the point at which the wrapper happens to be built (a restarted run builds it elsewhere); (RETRY) the decision to abort after a failed search depends only on the memory length, which the callback state carries; (STEPINIT) the first trial step never exceeds the largest feasible step, so that a last-bit difference in the direction of a restarted run cannot abort its first line search; (SHARED) no solver state lives outside what the callback state carries (no module-level state written by the package); (LSCAP) the line-search cap is computed from the counters at the time of use, so a restart sees the same cap as the uninterrupted run; (SFREAD, DOWNHILL, BIND) the line search depends only on quantities a checkpoint carries: start value, global iteration number, evaluators; (ESC) may-alias origins of everything handed to the callback are disjoint from the targets of every in-place "
   "write reachable afterwards; (NITOFF) counter-offset analysis: the state's nit equals the nit of a run stopped "
   "at that iteration; (SIB) the state and the final result bind the same keywords to the same expressions; "
   "(CBUSE) the callback's result only decides the user-callback stop and nothing else depends on the presence "
